@@ -108,14 +108,21 @@ def evaluate(
 
   stdout = io.StringIO()
   with contextlib.redirect_stdout(stdout):
-    if hasattr(code_block.body[-1], 'value'):   # pytype: disable=attribute-error
+    # The value of the last line is the result when the last line is an
+    # expression or an assignment. (Other statements that carry a value, e.g.
+    # `x += 1` or `x: int = 1`, are executed as they are.)
+    if isinstance(code_block.body[-1], (ast.Expr, ast.Assign)):   # pytype: disable=attribute-error
       last_expr = code_block.body.pop()  # pytype: disable=attribute-error
       result_vars = [RESULT_KEY]
+      complex_targets = []
 
       if isinstance(last_expr, ast.Assign):
         for name_node in last_expr.targets:
           if isinstance(name_node, ast.Name):
             result_vars.append(name_node.id)
+          else:
+            # Tuple, attribute or subscript targets: assigned from the result.
+            complex_targets.append(name_node)
 
       last_expr = ast.Expression(last_expr.value)  # pytype: disable=attribute-error
 
@@ -142,6 +149,19 @@ def evaluate(
 
       for result_var in result_vars:
         global_vars[result_var] = result
+
+      if complex_targets:
+        assignment = ast.Module(
+            body=[ast.Assign(
+                targets=complex_targets,
+                value=ast.Name(id=RESULT_KEY, ctx=ast.Load()))],
+            type_ignores=[])
+        ast.copy_location(assignment.body[0], last_expr)
+        ast.fix_missing_locations(assignment)
+        try:
+          exec(compile(assignment, '', mode='exec'), global_vars)  # pylint: disable=exec-used
+        except Exception as e:
+          raise errors.CodeError(code, e) from e
     else:
       try:
         exec(compile(code_block, '', mode='exec'), global_vars)  # pylint: disable=exec-used
